@@ -17,7 +17,9 @@
 /* writing: the cursor is at the end and length counts the bytes written */
 #define VG_BUF_WR(b) ( VG_BUF_WF(b) && (b)->cur == (b)->end && (b)->length == (size_t) __CPROVER_POINTER_OFFSET((b)->end) )
 
+static inline uint32_t vg_f32_bits(float f) { union { float f; uint32_t u; } x; x.f = f; return x.u; }
+extern size_t vg_k;         /* skolem witness: an arbitrary index into the appended bytes */
 extern size_t vg_o;         /* skolem witness: an arbitrary byte offset */
-extern size_t vg_len0, vg_cur0, vg_end0;      /* ghost: length, cursor offset, end offset on entry */
+extern size_t vg_len0, vg_cur0, vg_end0, vg_alloc0;      /* ghost: length, cursor offset, end offset on entry */
 extern uint8_t vg_byte0;    /* ghost: byte at vg_o on entry */
 #endif
